@@ -157,6 +157,11 @@ def run(ctx):
             g, _ = dump_graph(ctx, cfg, label)
             replay(ctx, g, label, cfg, ["--wall", "45s"])
             os.unlink(g)
+        # the same nsqd over two connections (identical broadcast_address, tcp_port, http_port): each connection is
+        # a producer of its own, and closing one must not touch what the other registered
+        g, _ = dump_graph(ctx, "Lookupd_edges_shared.cfg", "twins")
+        replay(ctx, g, "twins", "Lookupd_edges_shared.cfg", ["--shared", "p1,p2", "--wall", "45s"])
+        os.unlink(g)
     else:
         g, _ = dump_graph(ctx, "Lookupd_edges.cfg", "full")
         replay(ctx, g, "full", "Lookupd_edges.cfg", ["--wall", "900s"])
